@@ -153,9 +153,12 @@ def sweep(prop, tier, verif_seed):
 
 def _zone_source_lines(root, zone):
     out = []
+    lines = []
+    srcdir = os.path.join(root, 'src')
     try:
-        with open(os.path.join(root, 'src', 'africa')) as f:
-            lines = f.read().split('\n')
+        for n in sorted(os.listdir(srcdir)):
+            with open(os.path.join(srcdir, n)) as f:
+                lines += f.read().split('\n')
     except OSError:
         return out
     take = False
